@@ -195,6 +195,38 @@ func latchDiscipline(c *Ctx, rule string, scope []*ssa.Function, latches map[*ty
 						ok = false
 					}
 				}
+				// the callee may report the latch through a boolean result computed from it ("ok := r.error == nil"):
+				// a caller that branches on (or hands on) that result has looked at the latch
+				if !ok && sig.Results().Len() == 1 {
+					reflects := len(allReturns(callee)) > 0
+					for _, r := range allReturns(callee) {
+						bo, isB := retVal(r, 0).(*ssa.BinOp)
+						if !isB || (bo.Op != token.EQL && bo.Op != token.NEQ) {
+							reflects = false
+							break
+						}
+						l, _ := bo.X.(*ssa.UnOp)
+						other := bo.Y
+						if l == nil || fieldVar(l.X) != fv {
+							l, _ = bo.Y.(*ssa.UnOp)
+							other = bo.X
+						}
+						if l == nil || l.Op != token.MUL || fieldVar(l.X) != fv || !isNilConst(other) {
+							reflects = false
+							break
+						}
+					}
+					if cv, isV := call.(ssa.Value); reflects && isV {
+						used := false
+						for _, u := range liveRefs(cv) {
+							switch u.(type) {
+							case *ssa.If, *ssa.Return:
+								used = true
+							}
+						}
+						ok = used
+					}
+				}
 				key := "latch-check " + fv.Name() + " after " + FuncName(callee) + " in " + FuncName(fn)
 				c.Check(ok, rule, key, p.Pos(call.Pos()), "every path from the call to a return tests or returns the latch", "a path from the call to a return never looks at the error latch the callee may have set")
 			}
@@ -298,6 +330,7 @@ func checkC10(c *Ctx) {
 	c.Rule("C10.2", "size accounting: the destination io.Writer flows only into the counting wrapper, whose Write adds the accepted count; WriteTo returns a load of that counter; a nil error is returned only after the normal exit of the track loop", 3)
 	c.Rule("C10.3", "read path: same two sub-rules for everything reachable from smf.ReadFrom; conversions of a non-nil error to success are confined to {io.EOF, ErrFinished} in ReadFrom", 10)
 	c.Rule("C10.4", "WriteFile: abstract run with creation, WriteTo and closing each succeeding or failing — a failed WriteTo always ends in a non-nil error with the partial file removed; a nil result only after a successful WriteTo, and then the file is not removed", 1)
+	c.Rule("C10.6", "whole-file read simulation with a source that may fail at EVERY Read (sticky non-EOF error, nothing delivered): every outcome in which some Read failed returns a definite error — never a silently shortened file; the outcomes without failure return nil", 1)
 	c.Rule("C10.5", "whole-file write simulation with a destination that may fail at EVERY Write (error or short count): every outcome in which some Write failed returns a definite error, however the error travels (result, latch, deferred assignment); the outcomes without failure return nil", 1)
 
 	writeTo := p.Method("smf", "SMF", "WriteTo")
@@ -407,8 +440,9 @@ func checkC10(c *Ctx) {
 		}
 	}
 
-	// ---- C10.5
+	// ---- C10.5 / C10.6
 	runWriteToSim(c, "", "", "", "", "", "C10.5")
+	runReadFromSim(c, "", "", "C10.6")
 	// ---- C10.4
 	c.Fn(FuncName(writeFile))
 	found := false
